@@ -484,7 +484,64 @@ func vaRenomRole(r *vRand) string {
 	return "ok"
 }
 
+// vaMidTask: while a task occupies the loop (it may be half way through a change of several fields), a getter that
+// returns a COMPOSITE of loop-owned state (pair state + nominated flag + counters, candidate lists, credential pairs)
+// must not return: it has to observe a state produced by whole operations, so it queues behind the task.
+func vaMidTask(r *vRand) string {
+	a, err := vaAgent()
+	if err != nil {
+		return "error midtask: " + err.Error()
+	}
+	defer func() { _ = a.Close() }()
+	getters := []struct {
+		name string
+		fn   func()
+	}{
+		{"GetSelectedCandidatePairStats", func() { _, _ = a.GetSelectedCandidatePairStats() }},
+		{"GetCandidatePairsStats", func() { _ = a.GetCandidatePairsStats() }},
+		{"GetLocalCandidatesStats", func() { _ = a.GetLocalCandidatesStats() }},
+		{"GetRemoteCandidatesStats", func() { _ = a.GetRemoteCandidatesStats() }},
+		{"GetLocalCandidates", func() { _, _ = a.GetLocalCandidates() }},
+		{"GetRemoteCandidates", func() { _, _ = a.GetRemoteCandidates() }},
+		{"GetLocalUserCredentials", func() { _, _, _ = a.GetLocalUserCredentials() }},
+		{"GetRemoteUserCredentials", func() { _, _, _ = a.GetRemoteUserCredentials() }},
+	}
+	release := make(chan struct{})
+	parked := make(chan struct{})
+	go func() { _ = a.loop.Run(a.loop, func(context.Context) { close(parked); <-release }) }()
+	<-parked
+	var early atomic.Int64
+	var mu sync.Mutex
+	var names []string
+	var wg sync.WaitGroup
+	released := atomic.Bool{}
+	for _, g := range getters {
+		wg.Add(1)
+		go func() {
+			defer wg.Done()
+			g.fn()
+			if !released.Load() {
+				early.Add(1)
+				mu.Lock()
+				names = append(names, g.name)
+				mu.Unlock()
+			}
+		}()
+	}
+	time.Sleep(time.Duration(5+r.intn(20)) * time.Millisecond)
+	released.Store(true)
+	close(release)
+	wg.Wait()
+	if early.Load() > 0 {
+		sort.Strings(names)
+		return "atomicity midtask: " + strings.Join(names, ",") + " returned while a task was running on the loop (composite result not produced by whole operations)"
+	}
+
+	return "ok"
+}
+
 var vaScenarios = map[string]func(*vRand) string{
+	"midtask":   vaMidTask,
 	"start":     vaStart,
 	"restart":   vaRestart,
 	"creds":     vaCreds,
